@@ -589,6 +589,7 @@ func main() {
 	sessionRows(o, g)
 	pipelinedViews(o)
 	udtStructs(o)
+	colCountBoundary(o)
 
 	o.Finish("From GocqlV Require Import Lib.Base C04.Model C04.Spec C04.Corr.", "C04.Corr.case", "C04.Corr.run")
 }
